@@ -39,10 +39,10 @@ type Spec struct {
 	// Persistent: in Error mode fail the When-th call and every later one (strace when=N+),
 	// so that a retry loop cannot succeed.
 	Persistent bool
-	Argv    []string
-	Env     []string
-	Dir     string
-	Timeout time.Duration
+	Argv       []string
+	Env        []string
+	Dir        string
+	Timeout    time.Duration
 	// TraceSet overrides the traced syscall set.
 	TraceSet string
 }
